@@ -39,6 +39,16 @@ def eval_bool(e, env, atoms=None):
     if isinstance(e, ast.UnaryOp) and isinstance(e.op, ast.Not):
         v = eval_bool(e.operand, env, atoms)
         return UNKNOWN if v is UNKNOWN else (not v)
+    if isinstance(e, ast.Compare) and len(e.ops) == 1 and isinstance(e.ops[0], (ast.Is, ast.IsNot, ast.Eq, ast.NotEq)):
+        # `type(x) is int` on a representative
+        known_t = {"list": list, "dict": dict, "str": str, "tuple": tuple, "int": int, "bool": bool, "float": float, "bytes": bytes}
+        for a_, b_ in ((e.left, e.comparators[0]), (e.comparators[0], e.left)):
+            if isinstance(a_, ast.Call) and isinstance(a_.func, ast.Name) and a_.func.id == "type" and "type" not in env and len(a_.args) == 1 and not a_.keywords and isinstance(b_, ast.Name) and b_.id in known_t and b_.id not in env:
+                v = value_of(a_.args[0], env)
+                if v is _NOVAL or v is _RAISES or isinstance(v, _Ast):
+                    return UNKNOWN
+                r = type(v) is known_t[b_.id]
+                return r if isinstance(e.ops[0], (ast.Is, ast.Eq)) else (not r)
     if isinstance(e, ast.Compare):
         left = value_of(e.left, env)
         res = True
@@ -205,6 +215,9 @@ def value_of(e, env):
 
             return {ast.LShift: _op.lshift, ast.RShift: _op.rshift, ast.BitAnd: _op.and_, ast.BitOr: _op.or_, ast.BitXor: _op.xor}[type(e.op)](l, r) if r >= 0 or not isinstance(e.op, (ast.LShift, ast.RShift)) else _NOVAL
         return _NOVAL
+    if isinstance(e, ast.Call) and not e.keywords and not e.args and isinstance(e.func, ast.Attribute) and e.func.attr == "bit_length":
+        v = value_of(e.func.value, env)
+        return v.bit_length() if isinstance(v, int) else _NOVAL
     if isinstance(e, ast.Call) and not e.keywords and len(e.args) == 1 and isinstance(e.func, ast.Name) and e.func.id == "str" and "str" not in env:
         v = value_of(e.args[0], env)
         return str(v) if isinstance(v, (int, str)) and not isinstance(v, bool) else _NOVAL
